@@ -345,9 +345,10 @@ func racedAny(rs ...*stackResult) bool {
 }
 
 // poolVerdict judges ONE enforce reply on a pool stack: a request tree that
-// recorded a crossed budget — on these stacks a refused required debit — and
-// was nevertheless answered something other than SERVFAIL after the pool had
-// been asked the client's question. "" = nothing to report.
+// recorded a crossed non-outbound budget (internal queries, a DNSSEC
+// operation) — on these stacks a refused required debit of the synchronous
+// resolution — and was nevertheless answered something other than SERVFAIL
+// after the pool had been asked the client's question. "" = nothing to report.
 func poolVerdict(cfg StackCfg, o *QueryObs) string {
 	if cfg.Mode != "enforce" || !cfg.Pool || cfg.V6 || o == nil || o.reply == nil || !o.Quiesced {
 		return ""
@@ -355,12 +356,18 @@ func poolVerdict(cfg StackCfg, o *QueryObs) string {
 	if len(o.Exhausted) == 0 || o.servfail() || o.PoolOwnQuestion == 0 {
 		return ""
 	}
-	if o.AfterReply > 0 && len(o.Exhausted) == 1 && o.Exhausted[0] == "outbound_queries" {
-		// attempts were still in flight when the client was answered: the
-		// refused debit may be one of those, after the fact
-		return ""
+	for _, x := range o.Exhausted {
+		if x != "outbound_queries" {
+			return "enforce/over-budget-tree-answered-by-fallback-pool"
+		}
 	}
-	return "enforce/over-budget-tree-answered-by-fallback-pool"
+	// Only the outbound budget is recorded as crossed. An attempt that was
+	// still in flight when the primary resolution gave up may have been
+	// refused its retry after the pool had answered (a refused debit sends no
+	// packet, so the packet log cannot place it in time). Nothing is lost: a
+	// pool attempt made although the outbound budget was spent shows as
+	// budget + 1 packets (enforce/outbound-packets-exceed-budget).
+	return ""
 }
 
 func (run *runner) judgePool(w *world, noPoolOff, off, sh *stackResult, all []*stackResult) {
@@ -483,6 +490,9 @@ func (run *runner) judgePool(w *world, noPoolOff, off, sh *stackResult, all []*s
 				}
 			}
 
+			if crossed && !obs.servfail() && obs.PoolOwnQuestion > 0 && poolVerdict(cfg, obs) == "" {
+				r.Count("pool/enforce_outbound_only_crossing_answered_by_pool_not_judged", 1)
+			}
 			if sig := poolVerdict(cfg, obs); sig != "" {
 				// the resolver races servers and the machine is shared: confirm
 				// on a second fresh stack
